@@ -113,7 +113,7 @@ func maxLen(t fileformats.PLYPropertyType) int {
 	case fileformats.PLYPropertyTypeUchar, fileformats.PLYPropertyTypeUint8:
 		return 255
 	}
-	return 300
+	return 2500
 }
 
 func valuesEqual(a, b fileformats.PLYValue) bool {
@@ -186,7 +186,12 @@ func runPLYGeneric(src *choice.Source, st *Stats) (fs []Finding) {
 					case 0:
 						n = 0
 					case 1:
+						// at the length type's limit (127 / 255), or well past any
+						// internal chunk size for the wider types
 						n = maxLen(pr.LenType)
+						if n > 255 {
+							n = 1000 + src.Intn(n-1000)
+						}
 					default:
 						n = src.Intn(6)
 					}
